@@ -58,3 +58,21 @@ M('C07', 'interval-window-off-by-one', (INT, "if len(self._storage_x) < self.siz
 M('C07', 'geo-stores-copy', (GEO, "self._storage_x[rand_idx] = x", "self._storage_x[rand_idx] = dict(x)"), kind='equivalent')
 M('C07', 'geo-fill-phase-stale-target', (GEO, "            self._storage_x.append(x)\n            if self.store_targets:\n                self._storage_y.append(y)",
                                        "            self._storage_x.append(x)\n            if self.store_targets:\n                self._storage_y.insert(0, y)"))
+
+# ---- C12 ---------------------------------------------------------------------------------------
+MV = 'ixai/utils/tracker/multi_value.py'
+M('C12', 'revert-fix-zero-sum', (MV, """        value_sum = sum(tracked_values.values())
+        if value_sum == 0:  # NumPy scalars do not raise ZeroDivisionError but yield inf / NaN
+            return {key: 0. for key in tracked_values.keys()}
+        tracked_values = {key: value / value_sum for key, value in tracked_values.items()}
+""", """        try:
+            tracked_values = {key: value / sum(tracked_values.values()) for key, value in tracked_values.items()}
+        except ZeroDivisionError:
+            tracked_values = {key: 0. for key in tracked_values.keys()}
+"""))
+M('C12', 'no-zero-fill', (MV, "            self.tracked_value[key].update(0)  # is zero the right value to add?", "            pass"))
+M('C12', 'shared-base-tracker', (MV, "                self.tracked_value[key] = copy.deepcopy(self._base_tracker)", "                self.tracked_value[key] = copy.copy(self._base_tracker) if self.N % 2 else self._base_tracker"))
+M('C12', 'normalise-by-abs-sum', (MV, "value_sum = sum(tracked_values.values())", "value_sum = sum(abs(v) for v in tracked_values.values())"))
+M('C12', 'N-counts-keys', (MV, "        self.N += 1\n        return self", "        self.N += max(len(values), 1)\n        return self"))
+M('C12', 'single-key-normalised', (MV, "if len(self._tracked_keys) <= 1:", "if len(self._tracked_keys) < 1:"))
+M('C12', 'zero-fill-only-once-seen-twice', (MV, "for key in self._tracked_keys - keys_in_update:", "for key in (self._tracked_keys - keys_in_update if self.N > 1 else ()):"))
